@@ -47,6 +47,32 @@
 (*                           (no final newline) -> StreamParse             *)
 (*   PerChunkLines = TRUE    every chunk is split on its own, nothing is   *)
 (*                           carried over -> StreamLines / StreamParse     *)
+(* The POSITION of a file object (hardening round 7).  A file object is a  *)
+(* stream AND a position: the caller may have taken k whole lines through  *)
+(* it (a header line, the first paragraph with Deb822(f)) before he hands  *)
+(* it to the reader, and may read on through it afterwards.  The layered   *)
+(* reader has FETCHED whole chunks by then: it holds complete lines it has *)
+(* not handed out yet and an unfinished one (FeedUntil).  What the next    *)
+(* reader of the same object gets is what follows the lines handed out     *)
+(* (RestLines), not what follows the chunks fetched.                       *)
+(*   OneEnd(ls)         the lines Deb822(x) takes from a line source: up   *)
+(*                      to and including the first separator after the     *)
+(*                      first payload line (unarmored documents)           *)
+(*   ReadOnInvariant    line level: the first OneEnd(X) lines give P[1],   *)
+(*                      the lines after them Tail(P) -- X = the dump, a    *)
+(*                      comment anywhere / everywhere, leading / trailing  *)
+(*                      lines, every separator shape                       *)
+(*   PositionInvariant  transport: after k lines were handed out (a junk / *)
+(*                      comment / blank-terminated header in front of the  *)
+(*                      document: k = its length, rest parses to P; the    *)
+(*                      document itself: k = OneEnd, rest parses to        *)
+(*                      Tail(P)) the lines delivered from then on are the  *)
+(*                      remaining lines of the document, under every       *)
+(*                      cutting                                            *)
+(*   BufferShortcut = TRUE (negative control) the next reader goes to the  *)
+(*                      layer BELOW ("avoid the double buffering"): what    *)
+(*                      the upper layer fetched but did not hand out is    *)
+(*                      skipped -> PositionInvariant                       *)
 (* The harness (harness/props/c02.py) binds this layer by feeding the      *)
 (* documents of the CASE replay and the recorded documents through every   *)
 (* kind of file object, padded so that a line end falls exactly at, one    *)
@@ -61,7 +87,8 @@ CONSTANTS BlockSizes,        \* block sizes tried (e.g. {2, 3, 4})
           ShortReads,        \* TRUE: also every cutting + one more cut anywhere
           KeepEmptyTail,     \* design: FALSE
           DropPartialLast,   \* design: FALSE
-          PerChunkLines      \* design: FALSE
+          PerChunkLines,     \* design: FALSE
+          BufferShortcut     \* design: FALSE
 
 NLb == 0
 WidthOf(ls, i, m) == IF ls[i].c = "Blank" THEN 0 ELSE IF m = 3 THEN 1 + (i % 2) ELSE m
@@ -121,4 +148,50 @@ StreamLines == \A ls \in StreamDocs : \A got \in Transported(ls) : got = ls
 StreamParse == \A ls \in StreamDocs : \A got \in Transported(ls) : Parse(got) = P
 \* both at once (the design configurations: the deliveries are computed once)
 StreamInvariant == \A ls \in StreamDocs : \A got \in Transported(ls) : got = ls /\ Parse(got) = P
+
+----------------------------------------------------------------------------
+(* the position of a file object *)
+SepClass(c) == c = "Blank" \/ (WsSeparates /\ c = "WsOnly")
+PayClass(c) == c \notin {"Blank", "WsOnly", "Comment"}
+\* the number of lines Deb822(x) takes from a line source (documents without armor)
+OneEnd(ls) ==
+    LET pay == {i \in 1..Len(ls) : PayClass(ls[i].c)}
+    IN IF pay = {} THEN Len(ls)
+       ELSE LET f    == CHOOSE i \in pay : \A j \in pay : i <= j
+                seps == {j \in (f + 1)..Len(ls) : SepClass(ls[j].c)}
+            IN IF seps = {} THEN Len(ls) ELSE CHOOSE j \in seps : \A q \in seps : j <= q
+From(ls, k) == SubSeq(ls, k + 1, Len(ls))
+
+PlainLeads == {pre \in Leads : \A i \in 1..Len(pre) : pre[i].c # "WsOnly"}
+ReadOnDocs == {D, AllComments(D)} \cup {InsertAt(D, i, CommentLn) : i \in 0..Len(D)}
+              \cup {pre \o D \o post : pre \in PlainLeads, post \in PlainLeads}
+              \cup {DumpSep(P, sep) : sep \in {q \in Seps : \A i \in 1..Len(q) : q[i].c # "WsOnly"}}
+ReadOnInvariant == P # <<>> => \A X \in ReadOnDocs :
+    LET k == OneEnd(X) IN ParseOne(SubSeq(X, 1, k)) = P[1] /\ Parse(From(X, k)) = Tail(P)
+
+\* feed chunks until k lines are complete (k < number of lines: the k-th line ends in a newline)
+RECURSIVE FeedUntil(_, _, _, _)
+FeedUntil(st, chunks, i, k) ==
+    IF Len(st.out) >= k \/ i > Len(chunks) THEN [st |-> st, i |-> i]
+    ELSE FeedUntil(FeedChunk(st, chunks[i]), chunks, i + 1, k)
+RestLines(chunks, k) ==
+    LET h    == FeedUntil([pend |-> <<>>, out |-> <<>>], chunks, 1, k)
+        held == [pend |-> h.st.pend, out |-> From(h.st.out, k)]          \* k lines went to the caller
+        from == IF BufferShortcut THEN [pend |-> <<>>, out |-> <<>>] ELSE held
+    IN AtEof(FeedAll(from, chunks, h.i))
+DeliveredFrom(ls, m, fnl, C, k) ==
+    LET ps == RestLines(ChunksFrom(StreamOf(ls, m, fnl), C, 1), k)
+    IN [i \in 1..Len(ps) |-> DecodeLine(ls, m, ps[i])]
+
+Heads == {<<JunkLn>>, <<CommentLn>>, <<JunkLn, BlankLn>>}
+PosCases == {[ls |-> h \o D, k |-> Len(h), want |-> P] : h \in (IF D = <<>> THEN {} ELSE Heads)}
+            \cup (IF Len(P) >= 2
+                  THEN {[ls |-> X, k |-> OneEnd(X), want |-> Tail(P)] :
+                           X \in {D, AllComments(D), <<BlankLn, CommentLn>> \o D \o <<BlankLn, BlankLn>>}}
+                  ELSE {})
+PositionInvariant ==
+    \A pc \in PosCases : \A m \in WidthModes, fnl \in BOOLEAN :
+        \A C \in CutSets(Len(StreamOf(pc.ls, m, fnl))) :
+            LET got == DeliveredFrom(pc.ls, m, fnl, C, pc.k)
+            IN got = From(pc.ls, pc.k) /\ Parse(got) = pc.want
 =============================================================================
